@@ -11,6 +11,7 @@ package main
 
 import (
 	"bufio"
+	"bytes"
 	"encoding/hex"
 	"encoding/json"
 	"errors"
@@ -67,6 +68,12 @@ type spec struct {
 	KittyAlt0     []int  `json:"kitty_alt0"`
 	Ops           []op   `json:"ops"`
 	Class         string `json:"class,omitempty"`
+	// overlapped shutdown (stream "overlap"): after Ops, Trigger ("kill" / "panic") starts Close on the
+	// input goroutine while the console withholds the DA1 answer; During Close calls of the application
+	// follow, then the answer, then After more Close calls
+	Trigger string `json:"trigger,omitempty"`
+	During  int    `json:"during,omitempty"`
+	After   int    `json:"after,omitempty"`
 }
 
 type chunk struct {
@@ -301,6 +308,236 @@ func runInChild(s *spec) observation {
 	}
 	for len(ob.Chunks) < len(s.Ops)+1 {
 		ob.Chunks = append(ob.Chunks, chunk{})
+	}
+	return ob
+}
+
+// ---------- overlapped shutdown (child process) ----------
+
+// holdConsole is the scripted terminal of the overlap scenarios: while hold is set it
+// records a DA1 query (CSI c) without answering it, so that the Close that wrote it
+// stays in Suspend, waiting for the parser; release answers what was withheld.
+type holdConsole struct {
+	*hx.FakeConsole
+	mu   sync.Mutex
+	hold bool
+	held int
+	saw  chan struct{}
+}
+
+var da1Query = []byte("\x1b[c")
+
+func (h *holdConsole) Write(p []byte) (int, error) {
+	h.mu.Lock()
+	defer h.mu.Unlock()
+	if n := bytes.Count(p, da1Query); h.hold && n > 0 {
+		h.held += n
+		h.FakeConsole.AutoReply = false
+		k, err := h.FakeConsole.Write(p)
+		h.FakeConsole.AutoReply = true
+		select {
+		case h.saw <- struct{}{}:
+		default:
+		}
+		return k, err
+	}
+	return h.FakeConsole.Write(p)
+}
+
+func (h *holdConsole) setHold() {
+	h.mu.Lock()
+	h.hold = true
+	h.mu.Unlock()
+}
+
+func (h *holdConsole) release() {
+	h.mu.Lock()
+	n := h.held
+	h.held, h.hold = 0, false
+	h.mu.Unlock()
+	for i := 0; i < n; i++ {
+		h.FakeConsole.InjectString("\x1b[?62;22c")
+	}
+}
+
+const overlapWindow = 1500 * time.Millisecond // how long a Close of the application may take before the terminal answers
+
+// childOverlap prints the lines of childMain plus "R <i>" when the i-th overlapping
+// Close of the application has returned.  Chunks: start-up, each operation, the trigger
+// (until its Close has written the DA1 query), each overlapping Close, the answer (until
+// the first Close has finished), each later Close.
+func childOverlap(arg string) {
+	var s spec
+	if err := json.Unmarshal([]byte(arg), &s); err != nil {
+		panic(err)
+	}
+	os.Unsetenv("COLORTERM")
+	setenv("VAXIS_FORCE_WCWIDTH", s.ForceWc)
+	setenv("VAXIS_FORCE_UNICODE", s.ForceUni)
+	setenv("VAXIS_FORCE_NOZWJ", s.ForceNoZWJ)
+	var mu sync.Mutex
+	say := func(line string) {
+		mu.Lock()
+		os.Stdout.WriteString(line + "\n")
+		mu.Unlock()
+	}
+	fc := hx.NewFakeConsole(s.profile())
+	fc.WriteHook = func(p []byte) { say("W " + hex.EncodeToString(p)) }
+	hc := &holdConsole{FakeConsole: fc, saw: make(chan struct{}, 16)}
+	vx, err := vaxis.New(s.options(hc, false)) // with signal handlers
+	if err != nil {
+		panic(err)
+	}
+	info, _ := json.Marshal(map[string]interface{}{"caps": vx.VerifCaps(), "kflags": vx.VerifKittyFlags(),
+		"ustyle": vx.VerifUserCursorStyle(), "appid": vx.VerifAppIDLast()})
+	say("I " + string(info))
+	for _, o := range s.Ops {
+		say("B")
+		if !apply(vx, o) {
+			say("H")
+		}
+	}
+	// the trigger: Close starts on the input goroutine and waits for the terminal
+	say("B")
+	hc.setHold()
+	switch s.Trigger {
+	case "kill":
+		syscall.Kill(os.Getpid(), syscall.SIGTERM)
+	case "panic":
+		vx.VerifPoisonCursorPos()
+		fc.InjectString("\x1b[5;5R")
+	default:
+		panic("trigger " + s.Trigger)
+	}
+	select {
+	case <-hc.saw:
+	case <-time.After(opTimeout):
+		say("H") // the first Close never reached Suspend's query
+	}
+	// the application reacts to QuitEvent with its own Close, one call after the other
+	returned := make([]chan struct{}, s.During)
+	blocked := false
+	launched := -1
+	for i := 0; i < s.During; i++ {
+		say("B")
+		returned[i] = make(chan struct{})
+		if blocked {
+			say(fmt.Sprintf("N %d", i)) // never issued: the application's goroutine is still inside the previous call
+			continue
+		}
+		launched = i
+		go func(i int) {
+			vx.Close()
+			say(fmt.Sprintf("R %d", i))
+			close(returned[i])
+		}(i)
+		select {
+		case <-returned[i]:
+		case <-time.After(overlapWindow):
+			blocked = true
+		}
+	}
+	// the terminal answers
+	say("B")
+	hc.release()
+	switch s.Trigger {
+	case "kill":
+		select {
+		case <-vx.VerifQuitCh():
+		case <-time.After(opTimeout):
+			say("H")
+		}
+	case "panic":
+		// the input goroutine finishes Close and panics again: the process dies here
+		time.Sleep(opTimeout)
+		say("H")
+	}
+	if blocked {
+		// did the call the application is stuck in return once the terminal had answered?
+		select {
+		case <-returned[launched]:
+			blocked = false
+		case <-time.After(2 * time.Second):
+		}
+	}
+	for i := 0; i < s.After; i++ {
+		say("B")
+		if blocked {
+			continue
+		}
+		if !apply(vx, op{K: "close"}) {
+			say("H")
+			blocked = true
+		}
+	}
+	say("E")
+	os.Exit(0)
+}
+
+func runOverlapChild(s *spec) observation {
+	js, _ := json.Marshal(s)
+	cmd := exec.Command(os.Args[0], "-c04ovl", string(js))
+	cmd.Env = append(os.Environ(), "GOTRACEBACK=none")
+	out, err := cmd.StdoutPipe()
+	if err != nil {
+		panic(err)
+	}
+	if err := cmd.Start(); err != nil {
+		panic(err)
+	}
+	var ob observation
+	cur := chunk{}
+	sc := bufio.NewScanner(out)
+	sc.Buffer(make([]byte, 1<<20), 1<<26)
+	ended := false
+	ret := map[int]bool{}
+	for sc.Scan() {
+		line := sc.Text()
+		switch {
+		case strings.HasPrefix(line, "W "):
+			b, _ := hex.DecodeString(line[2:])
+			cur.Bytes = append(cur.Bytes, b...)
+		case line == "B":
+			ob.Chunks = append(ob.Chunks, cur)
+			cur = chunk{}
+		case line == "H":
+			cur.Code = 2
+		case strings.HasPrefix(line, "R "), strings.HasPrefix(line, "N "):
+			var i int
+			fmt.Sscanf(line[2:], "%d", &i)
+			ret[i] = true
+		case strings.HasPrefix(line, "I "):
+			var info struct {
+				Caps   map[string]bool `json:"caps"`
+				KFlags int             `json:"kflags"`
+				UStyle int             `json:"ustyle"`
+				AppID  string          `json:"appid"`
+			}
+			json.Unmarshal([]byte(line[2:]), &info)
+			ob.Caps, ob.KFlags, ob.UStyle, ob.AppID = info.Caps, info.KFlags, info.UStyle, info.AppID
+		case line == "E":
+			ended = true
+		}
+	}
+	ob.Chunks = append(ob.Chunks, cur)
+	err = cmd.Wait()
+	switch {
+	case ended && err == nil:
+		ob.Exit = "exit0"
+	case err != nil:
+		ob.Exit = err.Error()
+	default:
+		ob.Exit = "eof"
+	}
+	total := 1 + len(s.Ops) + 1 + s.During + 1 + s.After
+	for len(ob.Chunks) < total {
+		ob.Chunks = append(ob.Chunks, chunk{})
+	}
+	// an overlapping Close that had not returned when the scenario (or the process) ended
+	for i := 0; i < s.During; i++ {
+		if !ret[i] {
+			ob.Chunks[1+len(s.Ops)+1+i].Code = 2
+		}
 	}
 	return ob
 }
@@ -610,6 +847,10 @@ func main() {
 		childMain(os.Args[2])
 		return
 	}
+	if len(os.Args) == 3 && os.Args[1] == "-c04ovl" {
+		childOverlap(os.Args[2])
+		return
+	}
 	cfg := hx.ParseFlags()
 	os.Unsetenv("COLORTERM")
 	for _, k := range []string{"VAXIS_FORCE_LEGACY_SGR", "VAXIS_FORCE_XTWINOPS", "VAXIS_DISABLE_NOZWJ", "VAXIS_GRAPHICS", "ASCIINEMA_REC", "VAXIS_LOG_LEVEL"} {
@@ -825,8 +1066,76 @@ func main() {
 			sf.Add(s.failTerm(b), map[string]interface{}{"spec": s, "error": err.Error()}, combo != 0 || nm, "newfail")
 		}
 	}
+	// 8. a shutdown started by the library (termination signal / panic in the input goroutine) that
+	// overlaps the application: the console withholds the DA1 answer, so the Close on the input
+	// goroutine waits inside Suspend while the application issues its own Close calls (the usual
+	// reaction to QuitEvent); then the terminal answers; then more Close calls.  Child processes,
+	// several at a time.
+	so := hx.NewStream("overlap", "model.ModeTerm model.ModesTypes model.Modes", "c04ovl", "c04_overlap_mismatches", "c04_overlap_violations")
+	so.ShardMax = 16
+	{
+		var specs []*spec
+		mk := func(trigger string, during, after int, combo int) {
+			s := baseSpec(r, combo, r.Intn(3) == 0)
+			s.Ops = genOps(r, s, r.Intn(5), "render") // ends in the running state, Suspend/Resume cycles included
+			s.Trigger, s.During, s.After = trigger, during, after
+			specs = append(specs, s)
+		}
+		for during := 0; during <= 3; during++ {
+			for after := 0; after <= 2; after++ {
+				mk("kill", during, after, r.Intn(256))
+			}
+			mk("panic", during, 0, r.Intn(256))
+		}
+		nrand := 8
+		if cfg.Thorough() {
+			nrand = 96
+		}
+		for i := 0; i < nrand; i++ {
+			if i%3 == 2 {
+				mk("panic", 1+r.Intn(3), 0, r.Intn(256))
+			} else {
+				mk("kill", 1+r.Intn(4), r.Intn(3), r.Intn(256))
+			}
+		}
+		obs := make([]observation, len(specs))
+		sem := make(chan struct{}, 6)
+		var wg sync.WaitGroup
+		for i := range specs {
+			wg.Add(1)
+			sem <- struct{}{}
+			go func(i int) {
+				defer wg.Done()
+				obs[i] = runOverlapChild(specs[i])
+				<-sem
+			}(i)
+		}
+		wg.Wait()
+		spawned += len(specs)
+		for i, s := range specs {
+			ob := obs[i]
+			head := ob
+			head.Chunks = ob.Chunks[:1+len(s.Ops)]
+			var tail []string
+			var codes []int
+			for _, c := range ob.Chunks {
+				codes = append(codes, c.Code)
+			}
+			for _, c := range ob.Chunks[1+len(s.Ops):] {
+				tail = append(tail, hx.Tuple(hx.Z(int64(c.Code)), coqSegs(c.Bytes)))
+			}
+			trig := "OpKill"
+			if s.Trigger == "panic" {
+				trig = "OpPanic"
+			}
+			term := fmt.Sprintf("mkOvl (%s)\n %s %d %d\n %s", s.term(head), trig, s.During, s.After, hx.List(tail))
+			so.Add(term, map[string]interface{}{"spec": s, "exit": ob.Exit, "outcomes": codes,
+				"outcome_legend": "start-up, each operation, trigger (until its Close waits for the terminal), each overlapping Close of the application, the terminal's answer (until the first Close finished), each later Close; 2 = never returned"},
+				true, "overlap", "trigger="+s.Trigger, fmt.Sprintf("during=%d", s.During), fmt.Sprintf("after=%d", s.After))
+		}
+	}
 	extra := map[string]interface{}{"child_processes": spawned, "harness_seconds": time.Since(t0).Seconds(),
 		"capability_subsets": "all 256 subsets of {sync, unicode, colortheme, inband, kittykb, sixel, explicitwidth, osc176} x DisableMouse"}
-	cfg.Write("C04", "sessions on a real Vaxis over hx.FakeConsole: every subset of the 8 mode-relevant capabilities x DisableMouse with a generated session (frames with styled/hyperlinked cells, Render, Refresh, ShowCursor/HideCursor, SetMouseShape, SetAppID, Suspend/Resume cycles) ending in Close or Suspend; quirk environment variables; cursor-style replies; kitty flag options; fixed Suspend/Resume cycles on kitty-keyboard terminals with every combination of empty / non-empty main- and alternate-screen flag stacks; a terminal that implements ?2048 silently; SIGTERM and a panic in the input goroutine in child processes; Suspend/Close while suspended (recorded finding); New on a console whose size cannot be read (error path of New). non-trivial = some capability/option-conditional branch of enableModes/disableModes is taken or the session has a Suspend/Resume cycle; distinct by the whole case",
-		[]*hx.Stream{st, sf}, extra, direct)
+	cfg.Write("C04", "sessions on a real Vaxis over hx.FakeConsole: every subset of the 8 mode-relevant capabilities x DisableMouse with a generated session (frames with styled/hyperlinked cells, Render, Refresh, ShowCursor/HideCursor, SetMouseShape, SetAppID, Suspend/Resume cycles) ending in Close or Suspend; quirk environment variables; cursor-style replies; kitty flag options; fixed Suspend/Resume cycles on kitty-keyboard terminals with every combination of empty / non-empty main- and alternate-screen flag stacks; a terminal that implements ?2048 silently; SIGTERM and a panic in the input goroutine in child processes; Suspend/Close while suspended (recorded finding); New on a console whose size cannot be read (error path of New); overlapped shutdown: SIGTERM / injected panic in a child whose console withholds the DA1 answer while the application issues 0-4 Close calls of its own, then answers, then 0-2 more Close calls. non-trivial = some capability/option-conditional branch of enableModes/disableModes is taken or the session has a Suspend/Resume cycle; distinct by the whole case",
+		[]*hx.Stream{st, sf, so}, extra, direct)
 }
